@@ -17,11 +17,11 @@ LEVEL_NOTE = ("Trusted: Lean kernel (+ standard axioms); kernel translator (K8) 
               "PySlice_AdjustIndices; hand-written model of _start_to_end/_step_subset/_getitem_bool (tied by correspondence); "
               "numpy searchsorted/delete semantics (N layer).")
 TECHNIQUE = "Lean 4 proof of decode(index r) = index(decode r); kernel K8 translated from source; correspondence"
-DESIGN_REF = "6.15"
+DESIGN_REF = "7"
 LEAN_MODULES = ["NpsVerif.Props.C15"]
 KERNELS = ("rl_slice_bounds",)
 RULE = ("cases = encoded array (exhaustive over 3 letters up to length 4 quick / 6 thorough + random long-run arrays) x index "
-        "(every int in [-(n+2), n+1]; int lists with repeats / out of range; dense bool masks; run-length bool masks; every slice with "
+        "(every int in [-(n+2), n+1]; int lists with repeats / out of range; dense bool masks; run-length bool masks, canonical and as produced by a comparison (`x[x > 0]`: equal neighbouring runs); every slice with "
         "bounds in {None} U [-(n+3), n+3] and steps None,+-1,+-2,+-3,+-(n+1); start/stop window vectors) x dtype; "
         "distinct = distinct (classes, index); non-trivial = not a refusal and array length >= 2")
 EXHAUSTIVE = {"quick": False, "thorough": False}
